@@ -348,8 +348,9 @@ theorem build_transitions : ∀ (T : List Trans) (ck : Chart),
       c2.states = ck.states ∧ c2.parent = ck.parent ∧ c2.children = ck.children ∧ c2.name = ck.name ∧
       c2.description = ck.description ∧ c2.preamble = ck.preamble ∧
       c2.transitions.map (fun t => { t with id := 0 }) =
-        ck.transitions.map (fun t => { t with id := 0 }) ++ T.map (fun t => { t with id := 0 })
-  | [], ck, _ => ⟨ck, rfl, rfl, rfl, rfl, rfl, rfl, rfl, by simp⟩
+        ck.transitions.map (fun t => { t with id := 0 }) ++ T.map (fun t => { t with id := 0 }) ∧
+      c2.transitions.map (·.id) = ck.transitions.map (·.id) ++ List.range' ck.transitions.length T.length
+  | [], ck, _ => ⟨ck, rfl, rfl, rfl, rfl, rfl, rfl, rfl, by simp, by simp⟩
   | t :: T, ck, h => by
     obtain ⟨⟨sd, hs, hown⟩, htg⟩ := h t List.mem_cons_self
     have hstep : addTransStep ck t = .ok { ck with transitions := ck.transitions ++ [{ t with id := ck.transitions.length }] } := by
@@ -362,12 +363,15 @@ theorem build_transitions : ∀ (T : List Trans) (ck : Chart),
         s.kind.ownsTransitions = true) ∧ ∀ tg, t'.target = some tg →
         ({ ck with transitions := ck.transitions ++ [{ t with id := ck.transitions.length }] } : Chart).hasState tg = true :=
       fun t' ht' => h t' (List.mem_cons_of_mem _ ht')
-    obtain ⟨c2, e1, e2, e3, e4, e5, e6, e7, e8⟩ := build_transitions T _ h'
-    refine ⟨c2, ?_, e2, e3, e4, e5, e6, e7, ?_⟩
+    obtain ⟨c2, e1, e2, e3, e4, e5, e6, e7, e8, e9⟩ := build_transitions T _ h'
+    refine ⟨c2, ?_, e2, e3, e4, e5, e6, e7, ?_, ?_⟩
     · simp only [List.foldl_cons]
       have : (Except.ok ck : Except IOErr Chart).bind (fun c => addTransStep c t) = _ := hstep
       rw [this]; exact e1
     · rw [e8]; simp
+    · rw [e9]
+      simp only [List.map_append, List.map_cons, List.map_nil, List.length_append, List.length_cons, List.length_nil,
+        List.append_assoc, List.cons_append, List.nil_append, List.range'_succ]
 
 theorem flatMap_congr' {α β : Type} {f g : α → List β} : ∀ {l : List α}, (∀ x ∈ l, f x = g x) → l.flatMap f = l.flatMap g
   | [], _ => rfl
@@ -456,7 +460,8 @@ theorem import_export_succeeds (c : Chart) (hw : WFChart c) (r : Name) (hr : c.r
       c'.name = c.name ∧ c'.description = c.description ∧ c'.preamble = c.preamble ∧
       (∀ n, c'.stateFor n = c.stateFor n) ∧ (∀ n, c'.parentFor n = c.parentFor n) ∧
       (∀ q m, m ∈ c'.childrenFor q ↔ m ∈ c.childrenFor q) ∧ (∀ q, (c'.childrenFor q).Nodup) ∧
-      (c'.transitions.map (fun t => { t with id := 0 })).Perm (c.transitions.map (fun t => { t with id := 0 })) := by
+      (c'.transitions.map (fun t => { t with id := 0 })).Perm (c.transitions.map (fun t => { t with id := 0 })) ∧
+      Tidy c' ∧ (c'.transitions.map (·.id)).Nodup := by
   rw [importDict_export c r hr hcov hdesc hpre fuel hfuel]
   obtain ⟨L, hLdef⟩ : ∃ L, L = flatS c (c.states.length + 1) r none := ⟨_, rfl⟩
   obtain ⟨T, hTdef⟩ : ∃ T, T = flatT c (c.states.length + 1) r := ⟨_, rfl⟩
@@ -552,7 +557,7 @@ theorem import_export_succeeds (c : Chart) (hw : WFChart c) (r : Name) (hr : c.r
     refine ⟨⟨sd, by rw [F1]; exact hsd, hw.sourceKind t ht sd.kind (by simp [Chart.kindOf, hsd])⟩, ?_⟩
     intro tg h
     rw [HS]; exact htg tg h
-  obtain ⟨c2, hfold2, hs2, hp2, hc2, hn2, hd2, hpr2, ht2⟩ := build_transitions T c1 hTok
+  obtain ⟨c2, hfold2, hs2, hp2, hc2, hn2, hd2, hpr2, ht2, hids2⟩ := build_transitions T c1 hTok
   have G1 : ∀ n, c2.stateFor n = c.stateFor n := fun n => by simp [Chart.stateFor, hs2]; exact F1 n
   have GS : ∀ n, c2.hasState n = c.hasState n := fun n => by simp [Chart.hasState, G1]
   have G2 : ∀ n, c2.parentFor n = c.parentFor n := fun n => by simp [Chart.parentFor, hp2]; exact F2 n
@@ -594,7 +599,8 @@ theorem import_export_succeeds (c : Chart) (hw : WFChart c) (r : Name) (hr : c.r
         rw [GC, F3]
         exact (hw.children p m).mpr hpm
   -- 4. assemble
-  refine ⟨c2, ?_, by rw [hn2, hn1, hc0], by rw [hd2, hd1, hc0], by rw [hpr2, hp1, hc0], G1, G2, ?_, ?_, ?_⟩
+  refine ⟨c2, ?_, by rw [hn2, hn1, hc0], by rw [hd2, hd1, hc0], by rw [hpr2, hp1, hc0], G1, G2, ?_, ?_, ?_,
+    tidy_of_same_dicts inv1.tidy hs2 hp2 hc2, by rw [hids2, htr1']; simpa using List.nodup_range' (s := 0) (n := T.length)⟩
   · unfold buildChart
     simp only [hfold1, hfold2, hval, if_true]
   · intro q m; rw [GC]; exact F3 q m
